@@ -17,5 +17,6 @@ CHECKS = {
     "C13": essa.c13,
     "C03": essa.c03,
     "C19": essa.c19,
+    "C16": essa.c16,
     "C18": essa.c18,
 }
